@@ -23,7 +23,7 @@ from concurrent.futures import ProcessPoolExecutor
 
 from . import retryenv
 from .common import Machinery, Report, seed
-from .tlc import run_tlc
+from .tlc import pick_cfg, run_tlc
 from .tracecheck import tlc_validate
 
 ALL_CLASSES = ["AUTH", "PERMISSION", "PERMANENT", "CONCURRENCY", "RATE_LIMIT", "SERVER_ERROR",
@@ -279,13 +279,8 @@ def judge(rep: Report, prop: str, traces: list[dict], verdicts: list[dict], orig
 def check(prop: str, tier: str) -> Report:
     pf = PROFILES[prop]
     rep = Report(prop=prop, tier=tier, level="model_checking")
-    suffix = "" if tier == "quick" else "_thorough"
-    mc_cfg = pf["mc"].replace(".cfg", f"{suffix}.cfg")
-    if not (os.path.exists(os.path.join(os.path.dirname(__file__), "..", "spec", mc_cfg))):
-        mc_cfg = pf["mc"]
-    ex_cfg = pf["export"].replace(".cfg", f"{suffix}.cfg")
-    if not (os.path.exists(os.path.join(os.path.dirname(__file__), "..", "spec", ex_cfg))):
-        ex_cfg = pf["export"]
+    mc_cfg = pick_cfg(pf["mc"][:-4], tier)
+    ex_cfg = pick_cfg(pf["export"][:-4], tier)
     mc = run_tlc("RetryMC.tla", mc_cfg, tag=f"{prop}-mc", timeout=3000)
     if not mc.ok:
         raise Machinery(f"spec-level counterexample: M violates {mc.violated} in {mc_cfg}; the "
